@@ -47,9 +47,9 @@ def _outcome(o):
 
 def term(case, obs):
     if case.get("area") != "conc":
-        return "(inl %s)" % queues.term(case, obs)
+        return "(@inl qcase ccase %s)" % queues.term(case, obs)
     o = obs[0] if obs and isinstance(obs[0], dict) else {"outcomes": [], "complete": False}
-    return ("(inr {| cc_plain := %s; cc_progs := %s; cc_impl := %s; cc_complete := %s |})"
+    return ("(@inr qcase ccase {| cc_plain := %s; cc_progs := %s; cc_impl := %s; cc_complete := %s |})"
             % (gbool(case["queue"] == "plain"), glist([glist([_call(c) for c in p]) for p in case["progs"]]),
                glist([_outcome(x) for x in o["outcomes"]]), gbool(bool(o.get("complete")))))
 
